@@ -27,13 +27,13 @@ PRBS_ORDERS = [7, 9, 11, 15, 23, 31]
 
 
 def mk_ppg(ex):
-    o = Obj('PPG3204')
-
     def rec(ex_, args, kw):
         ex_.event('query', args[1])
         return 0
     ex.overrides['lab.PPG3204._query'] = rec
-    return o
+    # the driver object is built by its real constructor without an instrument address (the documented debugging mode), so that
+    # whatever state __init__ sets up exists; commands are observed at _query
+    return ex.instantiate('PPG3204', [], {})
 
 
 def queries(p):
@@ -227,6 +227,10 @@ def _offs_check(K, p, sig, lit, terms, limits, rep):
 
 
 range_offs = setter_clause('offs', 'set_offset', lambda n: z3.Real(n), LIM['offs'], _offs_check)
+# integer-typed requests (python ints, int lists/arrays): numpy keeps them integer until the clamp promotes them
+range_skew_int = setter_clause('skew_int', 'set_skew', lambda n: z3.Int(n), LIM['skew'], check_value_cmd([':SKEW{} {}'], lambda s: s is None))
+range_volt_int = setter_clause('volt_int', 'set_output_voltage', lambda n: z3.Int(n), LIM['volt'], check_value_cmd([':VOLT{}:POS {}v'], lambda s: s == '.1f'))
+range_offs_int = setter_clause('offs_int', 'set_offset', lambda n: z3.Int(n), LIM['offs'], _offs_check)
 
 
 @clause('C20.range.prbs', min_obl=4)
@@ -443,6 +447,28 @@ def bounded(K):
                             bad.append({'len': ln, 'start': start, 'CHs': chs, 'shape': str(got.shape)})
                     except Exception as e:
                         bad.append({'len': ln, 'start': start, 'CHs': chs, 'raised': f'{type(e).__name__}: {e}'[:120]})
+        # histories on ONE driver object: overlapping writes, rewrites of the same range, interleaved reads (reference: a plain array per channel)
+        for hist in range(12 if not thorough else 60):
+            ppg = PPG3204()
+            ppg.inst = FakeInst()
+            ref = {c: np.zeros(9000, int) for c in range(1, 5)}
+            A = (rng.integers(0, 2, 3000), 1 + int(rng.integers(0, 40)), [None, 2, [1, 3], [4, 2, 1]][hist % 4])
+            Bs = 400 + int(rng.integers(0, 900))
+            B = (rng.integers(0, 2, 100 + int(rng.integers(0, 1500))), A[1] + Bs, A[2])
+            ops = [A, B, A] + [(rng.integers(0, 2, int(rng.integers(1, 2600))), 1 + int(rng.integers(0, 3000)), [None, 3, [2, 4]][int(rng.integers(0, 3))]) for _ in range(3)] + [B, A]
+            n += 1
+            seen.add(('history', hist))
+            try:
+                for k_, (data, start, chs) in enumerate(ops):
+                    ppg.set_data(data, start, chs)
+                    for c in ([1, 2, 3, 4] if chs is None else ([chs] if isinstance(chs, int) else chs)):
+                        ref[c][start:start + len(data)] = data
+                    got = ppg.get_data(6000, 1, None)
+                    if not all(np.array_equal(got[c - 1], ref[c][1:6001]) for c in range(1, 5)):
+                        bad.append({'history': hist, 'after write': k_, 'writes (len, start, CHs)': [(len(d_), s_, c_) for d_, s_, c_ in ops[:k_ + 1]], 'wrong bits': int(sum(np.sum(got[c - 1] != ref[c][1:6001]) for c in range(1, 5)))})
+                        break
+            except Exception as e:
+                bad.append({'history': hist, 'raised': f'{type(e).__name__}: {e}'[:120]})
         return {'n': n, 'distinct': len(seen), 'bad': bad[:5], 'nbad': len(bad)}
 
     def work_sync():
@@ -474,7 +500,7 @@ def bounded(K):
         return {'n': n, 'distinct': len(seen), 'bad': bad[:5], 'nbad': len(bad)}
     st, r = native(work_rt, 1800)
     K.bounded('roundtrip', st == 'ok' and r['nbad'] == 0, {'evaluations': r['n'] if st == 'ok' else 0, 'distinct_nontrivial': r['distinct'] if st == 'ok' else 0,
-              'bound': 'lengths 1..5000 (thorough: 10^4) across 1024-bit boundaries x 3 start addresses x 4 channel selections against a simulated instrument', 'samples': [{'len': 2049, 'start': 5, 'CHs': [1, 3]}],
+              'bound': 'lengths 1..5000 (thorough: 10^4) across 1024-bit boundaries x 3 start addresses x 4 channel selections against a simulated instrument; 12 (thorough 60) histories of 8 writes on one driver object (A, B inside A, A again, random writes, B, A) with a full read-back after each', 'samples': [{'len': 2049, 'start': 5, 'CHs': [1, 3]}],
               'failures': r if st == 'ok' else [st, r]})
     st, r = native(work_sync, 1800)
     K.bounded('sync_index', st == 'ok' and r['nbad'] == 0, {'evaluations': r['n'] if st == 'ok' else 0, 'distinct_nontrivial': r['distinct'] if st == 'ok' else 0,
